@@ -1,6 +1,8 @@
 """C10 — template conflict resolution: import precedence, then priority, then last.
-(state after the repairs of K2, K-new-1/K-new-3 and K-new-2 in Stylesheet.cpp: only K1 is a known finding; the
- k2/k3/k4 streams and corpus cases remain as regression inputs for the repaired defects)
+(state after the repairs of K2, K-new-1/K-new-3 and K-new-2 in Stylesheet.cpp; the k2/k3/k4 streams and corpus
+ cases remain as regression inputs for the repaired defects.  K1: the model, the theorems and this check cover
+ both variants of findTemplate - an entry tested with the whole match pattern (K1 a known finding) or with its own
+ alternative (after the repair of K1: class opened) - and follow the generated fact per_alternative)
 
 Legs:
   proof          coq/Properties_C10.v over coq/TmplDefs.v (+ coq/GenTmpl.v regenerated from XPath.cpp /
@@ -152,7 +154,7 @@ def gen_template(r, tid, k1=False, k2=False, pool=None, k3=False, k4=False):
         else:
             alts = [gen_alt(r, k2) for _ in range(n_alt)]
         uniform = len({spec_default_priority(x) for x in alts}) == 1
-        if explicit or uniform or k1:
+        if explicit or uniform or k1 or OPEN_K1:
             break
         n_alt = 1
     if pool is not None:
@@ -464,7 +466,7 @@ def model_line(case, facts, queries):
     nodes, matrix = case["nodes"], case["matrix"]
     q = " ".join("%d %d %s %d %s" % (quiet, len(path), " ".join(str(i) for i in path), only, MODE_ID[mode])
                  for (quiet, path, only, mode) in queries)
-    line = "%s %s N %d %s M %d %s Q %d %s" % (case["id"], sheet_tok(case["sheet"]), len(nodes), " ".join(node_key(n) for n in nodes),
+    line = "%s V%d %s N %d %s M %d %s Q %d %s" % (case["id"], 1 if facts.get("per_alternative") else 0, sheet_tok(case["sheet"]), len(nodes), " ".join(node_key(n) for n in nodes),
                                               len(matrix), " ".join(m or "-" for m in matrix), len(queries), q)
     return re.sub(r"\s+", " ", line)
 
@@ -489,6 +491,12 @@ def make_case(ctx, cid, k1=False, k2=False, sheet=None, doc=None, k3=False, k4=F
         sheet = gen_sheet(r, 0, [r.choice([0, 1, 2, 3, 5])], counter, k1, k2, pool, k3=k3, k4=k4)
     sheet["items"].insert(0, dict(T0, alts=[dict(T0["alts"][0])]))
     return {"id": cid, "sheet": sheet, "doc": doc if doc is not None else gen_doc(r), "k1": k1, "k2": k2, "k3": k3, "k4": k4}
+
+
+# True when the tree tests every table entry with its own alternative (generated fact per_alternative, after
+# the repair of K1): unions whose alternatives have different default priorities are then ordinary inputs of
+# the main stream and a disagreement with section 5.5 on them is a violation, not the known finding K1
+OPEN_K1 = False
 
 
 def has_k1(case):
@@ -650,7 +658,7 @@ def evaluate(ctx, cases, model_exe, facts, exes=None):
                     orc.append({"case": c, "node": i, "mode": m, "want": want, "got": got,
                                 "what": "node #%d (%s %s) mode %s: output %r, section 5.5 gives %r" % (
                                     i, nodes[i]["kind"], nodes[i]["lname"], m, got, want),
-                                "known": "K1" if k1 else None})
+                                "known": "K1" if (k1 and not OPEN_K1) else None})
                 # oracle B: conflict reporting must not change the choice (library against itself)
                 if obs_nq is not None:
                     gq = obs_nq[i * len(MODES) + mi]
@@ -756,6 +764,9 @@ def run(ctx):
     proved = ctx.prove(["Properties_C10.v"], ["GenTmpl"])
     gen = core.srcfacts.run(core.COQ, ["GenTmpl"]).get("GenTmpl", {})
     facts = gen.get("facts")
+    global OPEN_K1
+    OPEN_K1 = bool(facts and facts.get("per_alternative"))
+    ctx.notes["per_alternative_variant"] = OPEN_K1
     model, ok_m, mlog = core.build_model(FAMILY)
     if not ok_m:
         ctx.broken.append("model extraction/build failed: " + mlog[-500:])
